@@ -20,6 +20,7 @@ Static clauses decided (necessary conditions of C31):
          values are applied with _db_set_ (by that function, or by __setstate__ in the three-element form).
  CYCLE   related objects are not inside the *arguments* of the reduce value (pickle writes those before it memoises the object,
          so objects that refer to each other would recurse until RecursionError): they travel in the state element, or as keys.
+ FIRSTCOL a raw primary key is reduced to its first column only under a guard on the number of key columns (not of key attributes).
  MIX     a Bag refuses objects of another database or another session.
 """
 NOT_DECIDED = "value equality after unpickling; JSON encoding of every attribute type"
@@ -128,6 +129,65 @@ def run(ctx):
         ctx.ob('C31-CYCLE.related-objects-are-not-pickled-inside-the-reduce-arguments', rd, v, ok,
                '' if ok else 'Entity.__reduce__ puts every loaded attribute value, related objects included, into the arguments `%s` of its reduce value: pickle writes those before it '
                'memoises the object, so loaded objects that refer to each other (both sides of a one-to-one) cannot be pickled -- RecursionError' % args_txt[:40], node=v)
+    # ---------------------------------------------------------------- FIRSTCOL
+    # a raw primary key is a tuple of *column* values.  Reporting only its first column (`pk[0]`) is injective exactly when the key has one column:
+    # under the scenario "the key has several columns" no `<raw key>[0]` is reachable.  The number of key *attributes* is another thing -- one
+    # attribute that refers to an entity with a composite key has several columns (_pk_is_composite_ is False for it).
+    from ..loader import parents as _parents
+    from ..typestate import eval_test as _ev
+    nfc = 0
+    def with_nested(fs):
+        for f_ in fs:
+            yield f_
+            yield from with_nested(getattr(f_, 'nested', {}).values())
+    seen_fc = set()
+    for f in with_nested([f_ for f_ in repo.rule_funcs() if f_.mod.name in (CORE, SER)]):
+        if id(f.node) in seen_fc: continue
+        seen_fc.add(id(f.node))
+        if not any(isinstance(c.func, ast.Attribute) and c.func.attr == '_get_raw_pkval_' for c in calls_in(f.node)): continue
+        def is_raw_call(e): return isinstance(e, ast.Call) and isinstance(e.func, ast.Attribute) and e.func.attr == '_get_raw_pkval_'
+        raw_vars = {t.id for st in ast.walk(f.node) if isinstance(st, ast.Assign) and is_raw_call(st.value) for t in st.targets if isinstance(t, ast.Name)}
+        subs = [x for x in ast.walk(f.node) if isinstance(x, ast.Subscript) and isinstance(x.slice, ast.Constant) and x.slice.value == 0 and isinstance(x.ctx, ast.Load)
+                and (is_raw_call(x.value) or isinstance(x.value, ast.Name) and x.value.id in raw_vars)]
+        pm = _parents(f.node)
+        def own(x):                     # not inside a nested def (those are functions of their own)
+            y = x
+            while y in pm:
+                y = pm[y]
+                if isinstance(y, (ast.FunctionDef, ast.AsyncFunctionDef, ast.Lambda)) and y is not f.node: return False
+            return True
+        subs = [x for x in subs if own(x)]
+        if not subs: continue
+        g = cg.cfg(f)
+        def many(text, node):
+            if isinstance(node, ast.Compare) and len(node.ops) == 1 and isinstance(node.left, ast.Call) and dotted(node.left.func) == 'len' and len(node.left.args) == 1 \
+                    and isinstance(node.comparators[0], ast.Constant) and isinstance(node.comparators[0].value, int):
+                a0 = node.left.args[0]
+                if isinstance(a0, ast.Name) and a0.id in raw_vars or is_raw_call(a0) or (dotted(a0) or '').endswith('_pk_columns_'):
+                    k = node.comparators[0].value
+                    vals = {{ast.Eq: n_ == k, ast.NotEq: n_ != k, ast.Gt: n_ > k, ast.GtE: n_ >= k, ast.Lt: n_ < k, ast.LtE: n_ <= k}.get(type(node.ops[0])) for n_ in (2, 3)}
+                    if len(vals) == 1: return vals.pop()
+            return None
+        eo = scenario_edges(g, f.node, many, resolve=True)
+        live = g.reach([g.entry], edge_ok=eo)
+        for sb in subs:
+            nfc += 1
+            reachable = True
+            y = sb
+            while y in pm and not isinstance(pm[y], ast.stmt):
+                p_ = pm[y]
+                if isinstance(p_, ast.IfExp) and y is not p_.test:
+                    v_ = _ev(p_.test, many)
+                    if v_ is not None and v_ != (y is p_.body): reachable = False
+                y = p_
+            st_ = pm.get(y)
+            if reachable and st_ is not None:
+                nodes_ = [n_ for n_ in g.nodes if n_.ast is not None and any(z is sb for z in n_.walk())]
+                if nodes_ and not any(n_.id in live for n_ in nodes_): reachable = False
+            ctx.ob('C31-FIRSTCOL.first-column-stands-for-the-key-only-when-the-key-has-one-column', f, sb, not reachable,
+                   '' if not reachable else '`%s` can be taken for a key with several columns (the guard does not test the number of key columns / the length of the raw key): '
+                   'objects whose keys share the first column are reported under one key and overwrite each other' % norm(sb), node=sb)
+    ctx.floor('C31-FIRSTCOL', nfc, 5, 'first-column reductions of a raw primary key')
     # ---------------------------------------------------------------- MIX
     pu = repo.fn(SER, 'Bag._put_object'); g = cg.cfg(pu)
     for want in ('bag.database.entities.get(entity.__name__) is not entity', 'obj._session_cache_ is not cache'):
@@ -202,6 +262,10 @@ MUTANTS = [
     dict(id='C31-m2', file='pony/orm/serialization.py', fn='Bag._reduce_composite_pk', old=".replace('*', '**').replace(',', '*,')", new=".replace(',', '*,')", expect='C31-ESC'),
     dict(id='C31-m3', file='pony/orm/serialization.py', fn='Bag.to_dict', old='    def to_dict(bag):\n        bag.dicts.clear()\n', new='    def to_dict(bag):\n', expect='C31-FRESH.scratch-table-cleared-before'),
     dict(id='C31-m4', file='pony/orm/core.py', fn='Entity.to_dict', old='        if cache is not None and cache.is_alive and cache.modified: cache.flush()\n', new='', expect='C31-FLUSH'),
+    dict(id='C31-fc4', file='pony/orm/serialization.py', fn='Bag._process_object', old="                if len(attr.reverse.entity._pk_columns_) > 1:", new="                if attr.reverse.entity._pk_is_composite_:", expect='C31-FIRSTCOL'),
+    dict(id='C31-fc1', file='pony/orm/serialization.py', fn='Bag.to_dict', old="            composite_pk = len(entity._pk_columns_) > 1", new="            composite_pk = entity._pk_is_composite_", expect='C31-FIRSTCOL'),
+    dict(id='C31-fc2', file='pony/orm/serialization.py', fn='Bag.to_dict', old="            composite_pk = len(entity._pk_columns_) > 1", new="            composite_pk = len(entity._pk_columns_) != 1", benign=True),
+    dict(id='C31-fc3', file='pony/orm/core.py', fn='Entity.to_dict', old="                if len(value) == 1: value = value[0]", new="                if not attr.reverse.entity._pk_is_composite_: value = value[0]", expect='C31-FIRSTCOL'),
     dict(id='C31-cyc1', file='pony/orm/core.py', fn='Entity.__reduce__', old="        return unpickle_entity_by_pk, (obj.__class__, obj._pkval_), state", new="        state['__class__'] = obj.__class__\n        return unpickle_entity, (state,)", expect='C31-CYCLE'),
     dict(id='C31-cyc2', file='pony/orm/core.py', fn='Entity.__setstate__', old="        obj._db_set_({obj._adict_[attrname]: val for attrname, val in state.items()}, unpickling=True)", new="        pass", expect='C31-PICKLE.unpickle-goes-through'),
     dict(id='C31-cyc3', file='pony/orm/core.py', fn='unpickle_entity_by_pk', old="    return entity._get_from_identity_map_(pkval, 'loaded')", new="    obj = object.__new__(entity); obj._pkval_ = pkval; obj._status_ = 'loaded'\n    return obj", expect='C31-PICKLE.unpickle-goes-through'),
